@@ -4,6 +4,7 @@ import (
 	"fmt"
 	"io"
 	"os"
+	"strings"
 
 	"github.com/avfs/avfs"
 
@@ -20,6 +21,7 @@ type staticStats struct {
 	Families     map[string]int   `json:"error_families_seen"` // "<os>/<family>" -> count
 	NotFailing   []string         `json:"calls_that_did_not_fail_on_either_side,omitempty"`
 	Checked      int              `json:"checks"`
+	Defaults     []map[string]any `json:"default_configurations"`
 }
 
 // failCase is one deliberately failing call: a portable namespace call or a
@@ -367,6 +369,149 @@ func runStatic(rep *kf.Reporter, st *staticStats) (constructorsOK bool, harness 
 	}
 
 	return true, nil
+}
+
+// runDefaults judges the default configuration of each kind: the instance is
+// built by the constructor alone (its own system directories) with, for MemFS,
+// either the identity manager the constructor picks or one of the same emulated
+// OS type. Facts, per pair of instances: every default location (role) is, or
+// is not, an existing directory on BOTH types, and the calls that rely on the
+// default temporary directory (dir == "") agree.
+//
+// General lesson: see sideCfg. What an instance is right after construction is
+// part of the emulation, and it is the one state no history of calls can set up.
+func runDefaults(rep *kf.Reporter, st *staticStats) error {
+	type cfgOf struct {
+		kind string
+		cfg  sideCfg
+	}
+
+	for _, kc := range []cfgOf{
+		{"MemFS", sideCfg{sysDirs: true}},
+		{"MemFS", sideCfg{sysDirs: true, idmSame: true}},
+		{"OrefaFS", sideCfg{sysDirs: true}},
+	} {
+		l, _, err := newSideCfg(kc.kind, false, kc.cfg)
+		if err != nil {
+			return err
+		}
+
+		w, _, err := newSideCfg(kc.kind, true, kc.cfg)
+		if err != nil {
+			return err
+		}
+
+		fact := map[string]any{"fs": kc.kind, "config": kc.cfg.String()}
+
+		for _, s := range []*side{l, w} {
+			f := map[string]any{"user": s.v.User().Name(), "user_is_admin": s.v.User().IsAdmin(), "idm_os_type": s.v.Idm().OSType().String()}
+			for _, r := range s.roles() {
+				f[r] = s.rolePath(r)
+			}
+
+			fact[s.osName()] = f
+		}
+
+		sig := func(call, variant, lk, wk, kind, what string) kf.Sig {
+			return kf.Sig{"fs": kc.kind, "part": "static", "call": call, "variant": variant, "operands": "", "config": kc.cfg.String(),
+				"linux": lk, "windows": wk, "kind": kind, "what": what}
+		}
+
+		// the tree the constructor created, in portable spelling
+		ld, _ := l.dump()
+		wd, _ := w.dump()
+		lm, wm := parseDump(ld), parseDump(wd)
+		fact["linux_tree"], fact["windows_tree"] = ld, wd
+
+		for _, r := range l.roles() {
+			st.Checked++
+
+			cls := func(e entry) string {
+				if e.typ == "" {
+					return strings.TrimSuffix(e.bad, ";")
+				}
+
+				return e.typ
+			}
+
+			if lc, wc := cls(lm[r]), cls(wm[r]); lc != wc {
+				rep.Report(sig("", "default location "+r, lc, wc, "default-location",
+					"right after construction a default location of the current user (the administrator) is an existing directory on one OS type only"),
+					map[string]any{"fact": fact, "role": r, "linux": l.rolePath(r) + ": " + lc, "windows": w.rolePath(r) + ": " + wc,
+						"go": fmt.Sprintf("v := %s.NewWithOptions(&Options{OSType: T%s}); v.Lstat(<%s>) for T = Linux, Windows", strings.ToLower(kc.kind),
+							map[bool]string{true: ", Idm: memidm.NewWithOptions(&memidm.Options{OSType: T})", false: ""}[kc.cfg.idmSame], r)})
+			}
+		}
+
+		// calls on the default temporary directory, each on fresh instances
+		for _, c := range []fsx.Call{{Op: "CreateTemp", A: "", B: "t*"}, {Op: "MkdirTemp", A: "", B: "t*"}} {
+			l2, _, err := newSideCfg(kc.kind, false, kc.cfg)
+			if err != nil {
+				return err
+			}
+
+			w2, _, err := newSideCfg(kc.kind, true, kc.cfg)
+			if err != nil {
+				return err
+			}
+
+			_, lr := l2.do(c)
+			_, wr := w2.do(c)
+			st.Checked++
+
+			fact[c.String()] = map[string]string{"linux": lr.String(), "windows": wr.String()}
+
+			if (lr.Kind == "ok") != (wr.Kind == "ok") {
+				rep.Report(sig(c.Op, "default directory", lr.Kind, wr.Kind, "outcome", "success on one OS type, failure on the other"),
+					map[string]any{"fact": fact, "call": c.String(), "linux": lr.String() + " " + lr.Msg, "windows": wr.String() + " " + wr.Msg})
+			}
+		}
+
+		// the default locations as the helpers spell them for base path "" (the
+		// spelling of the library's own test suite and examples), as operands from
+		// the root and from another current directory: what a helper returns has
+		// to name the same directory from anywhere, on both types
+		if err := bothDo(l, w, fsx.Call{Op: "Mkdir", A: "/a", Perm: 0o755}); err != nil {
+			return err
+		}
+
+		spellings := []struct {
+			role, expr string
+			get        func(s *side) string
+		}{
+			{"$TMP", `vfs.TempDir()`, func(s *side) string { return s.v.TempDir() }},
+			{"$HOME", `avfs.HomeDir(vfs, "")`, func(s *side) string { return avfs.HomeDir(s.v, "") }},
+			{"$HOMEUSER", `avfs.HomeDirUser(vfs, "", vfs.User())`, func(s *side) string { return avfs.HomeDirUser(s.v, "", s.v.User()) }},
+		}
+
+		for _, cwd := range []string{"/", "/a"} {
+			if cwd != "/" || kc.kind != "OrefaFS" { // OrefaFS cannot address its root (either type); it starts there
+				if err := bothDo(l, w, fsx.Call{Op: "Chdir", A: cwd}); err != nil {
+					return err
+				}
+			}
+
+			for _, sp := range spellings {
+				if lm[sp.role].typ != "d" || wm[sp.role].typ != "d" {
+					continue // not a role of this kind, or judged above
+				}
+
+				lc, lr := l.doConcrete(fsx.Call{Op: "Stat", A: sp.get(l)})
+				wc, wr := w.doConcrete(fsx.Call{Op: "Stat", A: sp.get(w)})
+				st.Checked++
+
+				if (lr.Kind == "ok") != (wr.Kind == "ok") {
+					rep.Report(sig("Stat", sp.expr+" from the current directory "+cwd, lr.Kind, wr.Kind, "outcome", "success on one OS type, failure on the other"),
+						map[string]any{"fact": fact, "history": []string{"Mkdir(/a)", "Chdir(" + cwd + ")"},
+							"linux": lc.String() + ": " + lr.String() + " " + lr.Msg, "windows": wc.String() + ": " + wr.String() + " " + wr.Msg})
+				}
+			}
+		}
+
+		st.Defaults = append(st.Defaults, fact)
+	}
+
+	return nil
 }
 
 // errClassReport enables the informational error-class comparison (not part
